@@ -125,6 +125,15 @@ class PList:
         return f"PList({self.items})"
 
 
+class PIter:
+    """iterator over an already materialised list of items (iter(), generators run eagerly)"""
+    __slots__ = ("items", "pos")
+
+    def __init__(self, items):
+        self.items = list(items)
+        self.pos = 0
+
+
 class PDict:
     """dict: concrete hashable keys live in `d`; keys with symbolic content (text, ints) live in `sym` as [key, value]
     pairs and are found by (forking) equality, which is what hashing + == amounts to"""
